@@ -262,7 +262,12 @@ pub fn write_truncated_start(
         truncated_width += ellipsis_width;
         replay_truncated(recorded_ellipsis, truncated_start)?;
     }
-    let truncated_start = start + count_start_zero_width_chars_bytes(&data[start..]);
+    // Leading zero-width characters are dropped only where the text was cut.
+    let truncated_start = if start == 0 {
+        0
+    } else {
+        start + count_start_zero_width_chars_bytes(&data[start..])
+    };
     replay_truncated(recorded_content, truncated_start)?;
     Ok(truncated_width)
 }
